@@ -2587,30 +2587,32 @@ pub(crate) fn check_type(expr: &mut TypedExpr, expected: &Type) -> Result<(), Ty
 }
 
 fn unify(e1: &mut TypedExpr, e2: &mut TypedExpr, m: MetaInfo) -> Result<Type, TypeErrors> {
+    // (constrain_type, unlike check_or_constrain_*, also gives the type to number literals nested
+    // inside of blocks, branches, arms and operators of the expression)
     let ty = match (&e1.ty, &e2.ty) {
         (ty1, ty2) if ty1 == ty2 => ty1.clone(),
         (Type::Unsigned(UnsignedNumType::Unspecified), Type::Unsigned(ty2)) => {
-            check_or_constrain_unsigned(e1, *ty2)?;
+            constrain_type(e1, &Type::Unsigned(*ty2))?;
             Type::Unsigned(*ty2)
         }
         (Type::Unsigned(ty1), Type::Unsigned(UnsignedNumType::Unspecified)) => {
-            check_or_constrain_unsigned(e2, *ty1)?;
+            constrain_type(e2, &Type::Unsigned(*ty1))?;
             Type::Unsigned(*ty1)
         }
         (Type::Unsigned(UnsignedNumType::Unspecified), Type::Signed(ty2)) => {
-            check_or_constrain_signed(e1, *ty2)?;
+            constrain_type(e1, &Type::Signed(*ty2))?;
             Type::Signed(*ty2)
         }
         (Type::Signed(ty1), Type::Unsigned(UnsignedNumType::Unspecified)) => {
-            check_or_constrain_signed(e2, *ty1)?;
+            constrain_type(e2, &Type::Signed(*ty1))?;
             Type::Signed(*ty1)
         }
         (Type::Signed(SignedNumType::Unspecified), Type::Signed(ty2)) => {
-            check_or_constrain_signed(e1, *ty2)?;
+            constrain_type(e1, &Type::Signed(*ty2))?;
             Type::Signed(*ty2)
         }
         (Type::Signed(ty1), Type::Signed(SignedNumType::Unspecified)) => {
-            check_or_constrain_signed(e2, *ty1)?;
+            constrain_type(e2, &Type::Signed(*ty1))?;
             Type::Signed(*ty1)
         }
         _ => {
